@@ -62,23 +62,33 @@ func loadKnown(path string) *knownSet {
 	return ks
 }
 
-// match returns the id of the known finding covering this violation, or "".
-func (k *knownSet) match(sc *Scenario, v *Verdict) string {
-	if k == nil || v == nil || v.OK {
+// matchAttrs returns the id of the known finding covering one atomic failure.
+func (k *knownSet) matchAttrs(prop, class string, attrs map[string]string) string {
+	if k == nil {
 		return ""
 	}
 	for _, f := range k.fs {
-		if f.Property != sc.Prop {
+		if f.Property != prop {
 			continue
 		}
-		if knownMatchers[f.Matcher](sc, v, f.Params) {
+		if knownMatchers[f.Matcher](class, attrs, f.Params) {
 			return f.ID
 		}
 	}
 	return ""
 }
 
-var knownMatchers = map[string]func(sc *Scenario, v *Verdict, params map[string]string) bool{}
+var knownGlobal *knownSet
+
+// knownMatchers: predicates over (violation class, attributes of the atomic
+// failure as reported by the judge).
+var knownMatchers = map[string]func(class string, attrs map[string]string, params map[string]string) bool{
+	// C12: an empty slice / empty map / nil pointer is written as a commented
+	// entry, which cannot override a non-empty `default:` tag on reading.
+	"c12-empty-value-with-default-tag": func(class string, a map[string]string, _ map[string]string) bool {
+		return class == "c12:value-differs" && (a["value_class"] == "empty" || a["value_class"] == "nil") && a["has_default"] == "true" && a["read_failed"] == "false"
+	},
+}
 
 func (sc *Scenario) payloadSummary() interface{} {
 	if sc.C14 != nil {
